@@ -3,7 +3,7 @@ truncation / extension / single-bit corruption under CRC / dangling, backward, s
 import base64
 
 from ..gen import cells as G
-from ..translate import bocheader
+from ..translate import bocheader, boccells
 
 SPEC = dict(
     manifest=dict(
@@ -26,42 +26,52 @@ SPEC = dict(
              'tot_cells_size, root_list, index, cells_data, including the CRC comparison and the trailing-bytes check. A change of any line of that '
              'function therefore breaks a proof obligation (the check then evaluates both functions in Lean on boundary bags and their corruptions and '
              'runs the conformance / rejection oracle on the differing inputs to produce a concrete replay) instead of having to be hit by a sample. '
-             'TIE TO THE SOURCE, first part of the cell record reader: c05_src_cell_layout - the statements of Boc.deserialize_cell before the data bits are '
-             'read (d1/d2 decoding, absent marker, popcount(level mask)+1 stored hashes and depths, the length check) are regenerated the same way and '
-             'proved equal, for all byte lists and index widths, to the first part of the hand model\'s deserializeCell, which is proved to be that part '
-             'followed by the rest. '
-             'The translator itself is validated on every change: Lean evaluation of the regenerated functions = CPython on ~350 structured header byte '
-             'strings and ~275 cell records. '
-             'TIE TO THE SOURCE, rest (second part of deserialize_cell: data bits, completion tag, exotic type byte, reference indices; the three loops of '
-             'deserialize; Boc.__init__): hand model + differential correspondence on '
+             'TIE TO THE SOURCE, cell record reader: c05_src_deserialize_cell - the WHOLE Boc.deserialize_cell is regenerated the same way by the loop / bit-list '
+             'extension of the translator (harness/translate/pyloops.py: bitarray(), frombytes, the completion-tag loop for j in range(-1, -8, -1) with break, '
+             'bits[:end] with end = None or a negative index, TvmBitarray(1023, ..), ba2int(.., signed=True), the reference-index loop with append, the returned '
+             '(dict, consumed)) and proved equal, for all byte lists and index widths, to the hand model\'s deserializeCell: same raise / return decision, same data '
+             'bits (completion tag removed), reference indices, cell type, consumed bytes (c05_src_cell_layout: the first part alone, kept). '
+             'TIE TO THE SOURCE, entry point: c05_src_deserialize - Boc.deserialize (call of the header parser on self.data, the cells loop, the reversed rebuild '
+             'loop with the inner reference loop, the topological-order check, the in-place result update, the roots loop) is regenerated as Py.loop? folds '
+             'with the loop-carried variables as state and proved equal, for all byte lists and EVERY cell constructor mk, to Model.BocParse.deserialize mk '
+             '(the constructor callback stays a parameter; a None child makes it raise: liftMk); c05_src_from_boc instantiates it with the constructor model. '
+             'So every theorem above is a theorem about the function regenerated from the current source, up to the cell constructor (C01/C02) and Boc.__init__. '
+             'The translators are validated on every change: Lean evaluation of the regenerated functions = CPython on ~350 structured header byte '
+             'strings, ~275 + ~1950 cell records and ~260 whole bags (Boc.deserialize with a test callback). A change of any line of these functions breaks a proof '
+             'obligation; the check then evaluates regenerated functions and hand model in Lean on the records of ~350 conforming boundary bags (every data '
+             'length around the byte boundaries with every tail, exotic cells, 0-4 references of every width, shared cells, several roots) and on their reference / '
+             'root corruptions and runs the conformance / rejection oracle, differing inputs first, to produce a concrete replay. '
+             'TIE TO THE SOURCE, rest (Boc.__init__: bytes / hex / base64 detection; the cell constructor): hand model + differential correspondence on '
              'conforming encodings from two independent encoders '
              '(Lean spec encoder through the driver, Python transcription in the harness), on every truncation/extension, all single-bit flips, '
              'reference/root/magic corruptions and random byte mutations.',
-        level_note='Trusted: Lean kernel (propext, Classical.choice, Quot.sound); for the header parser: the bytes-program translator pybytes.py/pyarith.py '
-                   'and its reading of the Python built-ins (TonVerif/PyBytes.lean: slice, range, unpacking; natOfBE = int.from_bytes big), validated '
-                   'differentially against CPython whenever source, translator or output change; for the second part of deserialize_cell / deserialize / Boc.__init__: '
+        level_note='Trusted: Lean kernel (propext, Classical.choice, Quot.sound); for the header parser, the cell reader and the loops of deserialize: the translators '
+                   'pybytes.py / pyloops.py / pyarith.py and their reading of the Python built-ins (TonVerif/PyBytes.lean: slice, range, unpacking, Py.loop? = for loop with break, '
+                   'negative indices / slices, bitarray frombytes / ba2int, TvmBitarray; natOfBE = int.from_bytes big; value semantics of lists under the aliasing rule), validated '
+                   'differentially against CPython whenever source, translator or output change; for Boc.__init__: '
                    'Model/BocParse.lean as a faithful hand transcription of '
                    'deserialize.py (sampled correspondence only: accept/reject and canonical root DAG listing on every generated input); '
                    'Spec/BocEncode.lean as a faithful reading of boc.tlb + the reference cell record layout; Model/Cell.lean for the constructor; '
                    'CRC theorem uses the translated crc32c (C18 tie). Input-form detection (hex/base64 text) is modelled for canonical texts only.',
-        technique='Lean 4 proof; header parser and first part of the cell reader regenerated from the source on every run and proved equal to the hand model for all inputs; '
-                  'rest: hand model + differential correspondence with the library',
+        technique='Lean 4 proof; header parser, cell reader and Boc.deserialize (all loops) regenerated from the source on every run and proved equal to the hand model for all inputs; '
+                  'Boc.__init__ and the cell constructor: hand model + differential correspondence with the library',
     ),
-    translators=[('deserialize.py deserialize_boc_header + first part of deserialize_cell (+utils.bytes_to_uint, magics)->Generated/BocHeader.lean', bocheader.regenerate)],
+    translators=[('deserialize.py deserialize_boc_header, deserialize_cell, deserialize (+utils.bytes_to_uint, magics)->Generated/BocHeader.lean, BocCells.lean', boccells.regenerate)],
     design_ref='DESIGN.md §6 C05',
     rule='DAGs (ordinary with sharing, exotic trees with pruned branches / Merkle cells / library cells, chains, 255..257-cell bags, cell data of '
          '255/256 bytes total) x freedoms drawn from the seed (magic, size min..4, off min..8, idx, crc, cache bits + per-cell flag, per-cell '
          'stored hashes, 1-3 roots, extra unreachable cells, random forward order); negative: every truncation point, 1-8 byte extensions, all '
          'single-bit flips of CRC-protected bags, reference rewrites (dangling/backward/self), root index >= cells, magic rewrites; '
          'distinct = distinct byte string; non-trivial = bag with >= 2 cells or non-empty data',
-    trusted_base=['Model/BocParse.lean mirrors the second part of deserialize_cell, deserialize and Boc.__init__ by hand (deserialize_boc_header and the first part of deserialize_cell: regenerated + proved equal, c05_src_header / c05_src_cell_layout)',
-                  'harness/translate/pybytes.py + pyarith.py (Python bytes-program subset -> Lean) and TonVerif/PyBytes.lean (meaning of slice / range / unpacking)',
+    trusted_base=['Model/BocParse.lean mirrors Boc.__init__ by hand (deserialize_boc_header, deserialize_cell, deserialize: regenerated + proved equal, c05_src_header / c05_src_deserialize_cell / c05_src_deserialize)',
+                  'harness/translate/pybytes.py + pyloops.py + pyarith.py (Python bytes-program subset with loops, bit lists, record lists, callbacks -> Lean) and TonVerif/PyBytes.lean (meaning of slice / range / unpacking / loops / bitarray operations)',
                   'Spec/BocEncode.lean transcribes boc.tlb and DataCell::serialize (with_hashes) by hand',
                   'Model/Cell.lean (constructor model, C01/C02) is reused for cls(bits, refs, type)',
                   'SHA-256 is an abstract parameter H in all theorems; CRC-32C is the translated library code (C18)'],
     assumptions=['bitarray frombytes / slicing / ba2int behave as modelled', 'bytes slicing never raises, indexing past the end raises',
                  'None children make the Cell constructor raise for every cell type',
-                 'correspondence is sampled differential testing of model vs library (everything except deserialize_boc_header and the first part of deserialize_cell)',
+                 'correspondence is sampled differential testing of model vs library (Boc.__init__ and the cell constructor; the parser functions are regenerated and proved equal)',
+                 'no list / bitarray / dict of the translated functions is changed through one name and read through another (checked syntactically by the translator: frozen names)',
                  'deserialize_boc_header is called with a bytes object; its exceptions are not distinguished (raise = none)'],
 )
 
@@ -667,6 +677,152 @@ def cell_records(rng):
     return [(d, sz) for _, d, sz in bocheader.cell_cases(rng)]
 
 
+def cell_grid(rng):
+    """Conforming bags that exercise the SECOND half of deserialize_cell and the loops of deserialize: every data length around
+    the byte boundaries with every kind of tail, exotic type bytes, 0-4 references of every width, several roots, shared and
+    unreferenced cells, every forward order of a small DAG.  -> [(tag, bytes, oracle(ctx), [(record bytes, size)])]"""
+    out = []
+
+    def add(tag, nodes, order, roots, size, off=2, magic='g', idx=False, crc=False, store=()):
+        spec = G.spec_dag(nodes)
+        recs = listing(nodes, spec, order)
+        fr = dict(magic=magic, size=size, off=off, idx=idx, crc=crc, cache=False, store=list(store), cflags=[])
+        case = dict(nodes=nodes, order=order, roots=roots, recs=recs, rpos=[order.index(r) for r in roots], fr=fr)
+        data = py_encode(recs, case['rpos'], fr)
+        raw = [(enc_record(r, size, fr['store'][k] if k < len(fr['store']) else False), size) for k, r in enumerate(recs)]
+        out.append((tag, data, lambda ctx, case=case, spec=spec, tag=tag: check_accept(ctx, case, spec, tag, use_lean_encoder=False), raw))
+
+    for n in list(range(0, 26)) + [63, 64, 65, 1015, 1016, 1017, 1018, 1019, 1020, 1021, 1022, 1023]:
+        pats = {'0' * n, '1' * n, G.rand_bits(rng, n), ('01' * n)[:n], ('10' * n)[:n], '1' * max(0, n - 1) + '0' * min(1, n),
+                '0' * max(0, n - 1) + '1' * min(1, n), '1' + '0' * max(0, n - 1) if n else ''}
+        for k, bits in enumerate(sorted(pats)):
+            add(f'src-bits{n}-{k}', [(G.ORD, bits, ())], [0], [0], 1, magic='gic'[(n + k) % 3])
+    leaves = [(G.ORD, format(k, '05b'), ()) for k in range(4)]
+    for k in range(1, 5):
+        for size in (1, 2, 3, 4):
+            nodes = leaves + [(G.ORD, G.rand_bits(rng, 3 * k), tuple(range(k)))]
+            add(f'src-refs{k}-size{size}', nodes, [4, 3, 2, 1, 0], [4], size, off=1 + size % 3, idx=bool(k % 2), crc=bool(size % 2))
+            add(f'src-refs{k}-size{size}-rev', nodes, [4, 0, 1, 2, 3], [4], size)
+    # shared children, several roots, an unreferenced cell, a root that is also a child
+    nodes = [(G.ORD, '1', ()), (G.ORD, '01', (0, 0)), (G.ORD, '001', (1, 0)), (G.ORD, '0001', ())]
+    for order in ([2, 1, 0, 3], [3, 2, 1, 0], [2, 3, 1, 0], [2, 1, 3, 0]):
+        for roots in ([2], [2, 3], [3, 2], [2, 1], [1, 2, 0], [0], [2, 2]):
+            add(f'src-dag-{"".join(map(str, order))}-{"".join(map(str, roots))}', nodes, order, roots, 1)
+    # exotic cells: library cell, pruned branches of every mask under ordinary parents, Merkle proofs / updates
+    add('src-lib', [(G.LIB, G.bytes_to_bits(bytes([2]) + rng.randbytes(32)), ())], [0], [0], 1)
+    add('src-lib-parent', [(G.LIB, G.bytes_to_bits(bytes([2]) + rng.randbytes(32)), ()), (G.ORD, '1', (0,))], [1, 0], [1], 2)
+    for mask in range(1, 8):
+        k = G.popcount(mask)
+        nodes = [(G.PRUNED, G.pruned_bits(mask, [rng.randbytes(32) for _ in range(k)], [rng.randrange(1000) for _ in range(k)]), ()),
+                 (G.ORD, G.rand_bits(rng, mask), (0,))]
+        add(f'src-pruned{mask}', nodes, [1, 0], [1], 1 + mask % 2, store=[bool(mask & 1), bool(mask & 2)])
+    for t in range(12):
+        db = G.DagBuilder()
+        top = G.gen_exotic_tree(rng, db, rng.choice([0, 1, 1, 2]), rng.randrange(2, 7))
+        if db.ok(top):
+            members = sorted(reachable(db.nodes, [top]))
+            add(f'src-exotic{t}', db.nodes, random_order(rng, db.nodes, set(members), first=top), [top], 1 + t % 2, magic='gic'[t % 3])
+    return out
+
+
+def boundary_dags(rng):
+    """the single-root DAGs of cell_grid as (tag, nodes, root): for the round-trip oracle of C03"""
+    out = []
+    for n in list(range(0, 26)) + [63, 64, 65, 1015, 1016, 1017, 1018, 1019, 1020, 1021, 1022, 1023]:
+        for bits in sorted({'0' * n, '1' * n, G.rand_bits(rng, n), ('01' * n)[:n], '0' * max(0, n - 1) + '1' * min(1, n)}):
+            out.append((f'src-bits{n}', [(G.ORD, bits, ())], 0))
+    leaves = [(G.ORD, format(k, '05b'), ()) for k in range(4)]
+    for k in range(1, 5):
+        out.append((f'src-refs{k}', leaves + [(G.ORD, G.rand_bits(rng, 3 * k), tuple(range(k)))], 4))
+    out.append(('src-dag', [(G.ORD, '1', ()), (G.ORD, '01', (0, 0)), (G.ORD, '001', (1, 0))], 2))
+    out.append(('src-lib', [(G.LIB, G.bytes_to_bits(bytes([2]) + rng.randbytes(32)), ())], 0))
+    for t in range(12):
+        db = G.DagBuilder()
+        top = G.gen_exotic_tree(rng, db, rng.choice([0, 1, 1, 2]), rng.randrange(2, 7))
+        if db.ok(top):
+            out.append((f'src-exotic{t}', db.nodes, top))
+    return out
+
+
+def src_search_cells(ctx):
+    """A c05_src_deserialize_cell / c05_src_deserialize obligation broke: evaluate, in Lean, the regenerated cell reader against
+    the hand model on the records of conforming boundary bags and on raw boundary records; judge the bags that contain a
+    differing record first, then all of them."""
+    grid = cell_grid(ctx.rng)
+    recs = []
+    for _, _, _, raw in grid:
+        for r in raw:
+            if r not in recs:
+                recs.append(r)
+    extra = [(d, sz) for _, d, sz in boccells.cell_cases(ctx.rng)][:600]
+    differing = set(boccells.diff_cells(ctx, recs + [r for r in extra if r not in recs]))
+    ctx.count('src-search-cell-grid', len(grid))
+    ctx.count('src-search-whole-cell-records-differing', len(differing))
+    # whole bags through the regenerated Boc.deserialize (test callback) vs the hand model: conforming grid bags and their
+    # reference / root corruptions (the loops: order check, dangling / self references, root indices)
+    bags = [t[1] for t in grid if len(t[1]) <= 200][:250] + [d for _, d in boccells.bag_cases(ctx.rng, 200)]
+    bagdiff = set(boccells.diff_bags(ctx, bags))
+    ctx.count('src-search-bags-differing', len(bagdiff))
+    first = [t for t in grid if any(r in differing for r in t[3]) or t[1] in bagdiff]
+    rest = [t for t in grid if not (any(r in differing for r in t[3]) or t[1] in bagdiff)]
+    for tag, d, oracle, _ in first + rest:
+        ctx.case(('src', d), nontrivial=False)
+        oracle(ctx)
+        if len(ctx.failures) >= 3:
+            break
+    if not ctx.failures:
+        # corruptions of the small DAG bags: every reference rewritten to a backward / self / dangling position, every root
+        # rewritten to an index behind the last cell - each must be rejected
+        for (tag, case) in cell_grid_cases(ctx.rng):
+            for kind in ('dangling', 'backward', 'self'):
+                bad_refs_all(ctx, case, tag, kind)
+            if len(ctx.failures) >= 3:
+                break
+    return bool(ctx.failures)
+
+
+def cell_grid_cases(rng):
+    """the small DAG / reference cases of cell_grid as case dicts (for reference and root corruptions)"""
+    out = []
+    leaves = [(G.ORD, format(k, '05b'), ()) for k in range(4)]
+    shapes = [(leaves + [(G.ORD, '101', tuple(range(k)))], [4, 3, 2, 1, 0], [4]) for k in range(1, 5)]
+    nodes = [(G.ORD, '1', ()), (G.ORD, '01', (0, 0)), (G.ORD, '001', (1, 0)), (G.ORD, '0001', ())]
+    shapes += [(nodes, order, roots) for order in ([2, 1, 0, 3], [3, 2, 1, 0], [2, 3, 1, 0]) for roots in ([2], [2, 3], [1, 2, 0])]
+    for t, (nodes, order, roots) in enumerate(shapes):
+        spec = G.spec_dag(nodes)
+        recs = listing(nodes, spec, order)
+        for size in (1, 2):
+            fr = dict(magic='g', size=size, off=2, idx=False, crc=False, cache=False, store=[], cflags=[])
+            out.append((f'src-corrupt{t}-{size}', dict(nodes=nodes, order=order, roots=roots, recs=recs, rpos=[order.index(r) for r in roots], fr=fr)))
+    return out
+
+
+def bad_refs_all(ctx, case, tag, kind):
+    """every reference of every record rewritten (one at a time): dangling (= cells), backward (= 0 for a record behind
+    position 0 / own position - 1), self (= own position); every root rewritten to `cells`"""
+    recs, fr = case['recs'], case['fr']
+    n = len(recs)
+    for p, r in enumerate(recs):
+        for j in range(len(r['refs'])):
+            v = n if kind == 'dangling' else p if kind == 'self' else p - 1
+            if v < 0:
+                continue
+            recs2 = [dict(x) for x in recs]
+            recs2[p] = dict(r, refs=list(r['refs']))
+            recs2[p]['refs'][j] = v
+            data = py_encode(recs2, case['rpos'], fr)
+            ctx.case(('badref', data))
+            must_reject(ctx, data, f'badref:{kind}', f'{kind} reference (cell {p} ref {j} -> {v} of {n} cells) accepted',
+                        case_input(case, tag=tag, cell=p, ref=j, value=v))
+    if kind == 'dangling':
+        for j in range(len(case['rpos'])):
+            rp = list(case['rpos'])
+            rp[j] = n
+            data = py_encode(recs, rp, fr)
+            ctx.case(('badroot', data))
+            must_reject(ctx, data, 'badroot', f'root index {n} >= cells {n} accepted', case_input(case, tag=tag, root=n))
+
+
 def src_search(ctx):
     """A c05_src_* obligation broke: evaluate, in Lean, the regenerated header parser against the hand model on boundary
     bags and their corruptions; judge the differing inputs first (conformance / rejection oracle), then the whole grid."""
@@ -695,7 +851,7 @@ def src_search(ctx):
 
 def run(ctx):
     rng = ctx.rng
-    if ctx.search and src_search(ctx):
+    if ctx.search and (src_search_cells(ctx) or src_search(ctx)):
         return
     hand_cases(ctx)
 
